@@ -51,6 +51,7 @@ class _Builder(object):
         self.disc_consts = []   # (name, value) usable as discriminators
         self.counter = 0
         self.used_names = set()
+        self.vec = {}         # user type name -> contains (transitively) a limited array (std::vector in C++)
 
     def fresh(self, stem):
         self.counter += 1
@@ -59,8 +60,16 @@ class _Builder(object):
     def numeric_pool(self):
         return [n for n in NUMERIC if self.o.allow_float or not NUMERIC[n][2]]
 
-    def pick_type(self, max_stiff, want_user=None):
+    def _x3_shaped(self, name):
+        """fixed struct holding a limited array whose wire alignment is below 8 (trigger of finding X3)"""
+        if not self.vec.get(name):
+            return False
+        return RefWire(Schema(self.decls)).layout(name)[1] < 8
+
+    def pick_type(self, max_stiff, want_user=None, for_optional=False):
         users = [n for n, s in self.stiff.items() if s <= max_stiff]
+        if for_optional and 'optional_struct_with_limited' in self.o.avoid:
+            users = [n for n in users if not self._x3_shaped(n)]
         if users and (want_user if want_user is not None else self.draw(st.integers(0, 9)) < 6):
             # favour recently defined types: they nest deeper
             idx = self.draw(st.integers(0, len(users) - 1))
@@ -119,6 +128,7 @@ class _Builder(object):
         name = self.fresh('T')
         target = self.pick_type(UNLIMITED)
         self.decls.append(Typedef(name, target))
+        self.vec[name] = self.vec.get(target, False)
         if target in NUMERIC:
             self.stiff[name] = FIXED
             if not NUMERIC[target][2]:
@@ -143,6 +153,7 @@ class _Builder(object):
                     expr = cands[0][0]
             arms.append(Arm(d, self.pick_type(FIXED), an, expr))
         self.decls.append(Union(name, arms))
+        self.vec[name] = any(self.vec.get(a.type, False) for a in arms)
         self.stiff[name] = FIXED
 
     def add_struct(self):
@@ -167,7 +178,7 @@ class _Builder(object):
                 members.append(Member(mn, t))
                 stiff = max(stiff, FIXED if t in NUMERIC else self.stiff[t])
             elif kind == OPT:
-                members.append(Member(mn, self.pick_type(FIXED), OPT))
+                members.append(Member(mn, self.pick_type(FIXED, for_optional=True), OPT))
             elif kind in (FIXARR, LIMARR):
                 size, expr = self.array_size()
                 t = 'bytes' if as_bytes else self.pick_type(FIXED)
@@ -197,6 +208,7 @@ class _Builder(object):
                 stiff = max(stiff, DYNAMIC)
         # a greedy / unlimited member must be last; inserted sizers never go after the end, so fine
         self.decls.append(Struct(name, members))
+        self.vec[name] = any(m.kind == LIMARR or self.vec.get(m.type, False) for m in members)
         self.stiff[name] = stiff
 
     def _is_int(self, t):
